@@ -10,11 +10,19 @@ require (
 	github.com/jilio/ebu/stores/durablestream v0.0.0
 	github.com/jilio/ebu/stores/sqlite v0.0.0
 	go.opentelemetry.io/otel v1.38.0
+	go.opentelemetry.io/otel/metric v1.38.0
 	go.opentelemetry.io/otel/sdk v1.38.0
 	go.opentelemetry.io/otel/sdk/metric v1.38.0
 	go.opentelemetry.io/otel/trace v1.38.0
-	go.opentelemetry.io/otel/metric v1.38.0
 	modernc.org/sqlite v1.40.1
+)
+
+require (
+	github.com/go-logr/logr v1.4.3 // indirect
+	github.com/go-logr/stdr v1.2.2 // indirect
+	github.com/google/uuid v1.6.0 // indirect
+	go.opentelemetry.io/auto/sdk v1.1.0 // indirect
+	golang.org/x/sys v0.36.0 // indirect
 )
 
 replace github.com/jilio/ebu => /repo
